@@ -174,8 +174,9 @@ class UpdaterModel:
         """dotted path of the updater field if v is a plain read of one (leaf rooted in the updater),
         e.g. 'bound_nsec' or 'sample.as_of' for a field of a nested private struct"""
         names = []
-        while v[0] == 't' and v[1] == 'field':
-            names.append(str(v[2][1]))
+        while v[0] == 't' and v[1] in ('field', 'as'):
+            # `as(x, Some).0` = the payload of an Option held by the updater: path component `<Some>`
+            names.append(str(v[2][1]) if v[1] == 'field' else '<%s>' % v[2][1])
             v = v[2][0]
         if not names:
             return None
@@ -244,6 +245,8 @@ class UpdaterModel:
                 names = [f['name'] for f in adt['variants'][0]['fields']]
                 for nm, f in zip(names, v[3]):
                     self.expand_store(out, path + '.' + nm, f)
+            elif v[2] == 'Some' and len(v[3]) == 1 and 'Option' in v[1]:
+                self.expand_store(out, path + '.<Some>.0', v[3][0])
 
     # ------------------------------------------------------------ FSM tables
     def fsm_tables(self, chk):
